@@ -36,6 +36,16 @@ PIPELINES = {
         "drivers": [{"name": "cases", "cmd": ["path-cases", "{cases}", "{out}"], "cases": "MC_Path"}],
         "min_events": 300,
     },
+    "cli": {
+        "variants": ["ring"],
+        "cli_builds": ["ring", "awslc"],
+        "mc": [{"module": "MC_Cli", "workers": 4}],
+        "drivers": [
+            {"name": "ring", "cmd": ["cli-cases", "{cases}", "{out}", "{cli_ring}", "{workdir}"], "cases": "MC_Cli", "chunk": 100000},
+            {"name": "awslc", "cmd": ["cli-cases", "{cases}", "{out}", "{cli_awslc}", "{workdir}"], "cases": "MC_Cli", "chunk": 100000},
+        ],
+        "min_events": 200,
+    },
     "csrparse": {
         "variants": ["ring"],
         "mc": [{"module": "MC_CsrParse", "workers": 4, "emits": False}],
@@ -117,6 +127,9 @@ PROPS = {
     "C12": _p("model_checking", ["path"], ["C12."],
               "MC_Path.Cases: chains root -> 0..3 intermediates -> leaf, one dimension varied at one position: CA flag variant of each issuer, path length {absent,0,1,2} against depth, verification day before/inside/after each window, permitted/excluded/both DNS and IPv4/IPv6 subtrees (prefixes 0,1,8,9,24,31,32 | 0,1,64,65,127,128) at root or intermediate against leaf names inside/outside/at the subnet boundary, leaf EKU subsets against server/client purpose, CA key-usage sets with/without keyCertSign; each chain is built by rcgen and judged by OpenSSL and webpki where the coverage table (PathValidation!Covered) says the validator's documented semantics cover the dimension",
               ops=["Validate"], exhaustive=True),
+    "C18": _p("model_checking", ["cli"], ["C18."],
+              "MC_Cli.Cases: key algorithm x SAN list shapes (none, DNS, IPv4, IPv6, mixed, non-ASCII, trailing dot, IPv4-mapped IPv6); country x common name x organisation classes (default, every PrintableString character, '?', '>', '@', non-ASCII, empty, UTF-8); base-name pairs (default, custom, with dots, sharing a prefix up to the last dot, with spaces) x output directory (existing, missing, nested, second run over a longer first run) ; purpose flags; invalid classes crossed with names/directories; both back ends' binaries, each run in a fresh directory, written files parsed by the harness's own PEM/DER readers, chains judged by OpenSSL and webpki",
+              ops=["CliRun"], exhaustive=True),
     "C13": _p("model_checking", ["strings"], ["C13."],
               "every Unicode scalar value as a one-character string through every text constructor of the five types (run-length encoded verdicts, judged element by element in TLA+), every 16-bit unit and every 32-bit value < 0x120000 through the byte-level constructors, hand-built and random byte strings (odd lengths, lone/paired surrogates, > U+10FFFF), random multi-character strings with planted outsiders, placement of sampled accepted values in names / alternative names with decoding; distinct by event arguments",
               ops=["StringRuns", "StringBytes", "StringMulti", "StringPlace"], exhaustive=False),
